@@ -6,7 +6,7 @@ import z3
 from . import spec as S
 from .vals import *
 from .core import *
-from .interp_call import SRange
+from .interp_call import SRange, SEnum
 
 TYPE_NAMES = {'int', 'str', 'bool', 'list', 'tuple', 'dict', 'set', 'slice', 'type', 'object', 'float',
               'decimal.Decimal', 'datetime.date', 'collections.abc.Hashable', 'typing.Sequence', 'typing.Mapping'}
@@ -212,7 +212,9 @@ class BuiltinMixin:
         if isinstance(v, STuple):
             start = 0
             return STuple([STuple([lift(i + start), e]) for i, e in enumerate(v.elems)], 'tuple')
-        raise Unsupported('enumerate over symbolic sequence (use a loop invariant with _i)')
+        if isinstance(v, (SSeq, SDyn)):
+            return SEnum(self.as_seq(v))
+        raise Unsupported('enumerate over this iterable')
 
     def b_zip(self, fr, f, args, kw, node):
         if all(isinstance(a, STuple) for a in args):
@@ -225,6 +227,22 @@ class BuiltinMixin:
             return STuple(list(reversed(v.elems)), 'tuple')
         raise Unsupported('reversed over symbolic sequence')
 
+    def b_sorted(self, fr, f, args, kw, node):
+        v = args[0]
+        if isinstance(v, SSet) and v.src is not None:
+            v = v.src
+        if isinstance(v, STuple) and not v.elems:
+            return SSeq(z3.Empty(SeqV), 'list')
+        seq = self.as_seq(v)
+        rev = kw.get('reverse')
+        reverse = False
+        if rev is not None:
+            sr = z3.simplify(self.truthy(rev))
+            if not (z3.is_true(sr) or z3.is_false(sr)):
+                raise Unsupported('sorted with symbolic reverse')
+            reverse = z3.is_true(sr)
+        return self.sorted_model(fr, seq, kw.get('key'), reverse, node)
+
     def b_all(self, fr, f, args, kw, node):
         return self._allany(fr, args, node, True)
 
@@ -233,6 +251,8 @@ class BuiltinMixin:
 
     def _allany(self, fr, args, node, universal):
         v = args[0]
+        if isinstance(v, SSet) and v.src is not None:
+            v = v.src
         if isinstance(v, STuple):
             ts = [self.truthy(e) for e in v.elems]
             if universal:
@@ -297,6 +317,18 @@ class BuiltinMixin:
                 return args[2]
             raise PyRaise('AttributeError', getattr(node, 'lineno', None), 'no such attribute (symbolic name)')
         raise Unsupported('getattr with symbolic name')
+
+    def b_m_get(self, fr, f, args, kw, node):
+        d = f.self_
+        if isinstance(d, SDict):
+            k = self.to_val(args[0])
+            default = self.to_val(args[1]) if len(args) > 1 else Val.VNone
+            return SDyn(z3.If(z3.Select(d.has, k), z3.Select(d.get, k), default))
+        if isinstance(d, SDictC):
+            k = z3.simplify(args[0].t) if isinstance(args[0], SStr) else None
+            if k is not None and z3.is_string_value(k):
+                return d.d.get(k.as_string(), args[1] if len(args) > 1 else NONE)
+        raise Unsupported('.get on this value')
 
     def b_m_items(self, fr, f, args, kw, node):
         d = f.self_
@@ -460,9 +492,6 @@ class BuiltinMixin:
 
     def b_m_endswith(self, fr, f, args, kw, node):
         return SBool(z3.SuffixOf(args[0].t, f.self_.t))
-
-    def b_m_get(self, fr, f, args, kw, node):
-        raise Unsupported('.get on non-opaque value')
 
     def b_m_index(self, fr, f, args, kw, node):
         return self.seq_method(fr, f.self_, 'index', args, kw, None, node)
